@@ -29,6 +29,13 @@ package types
 //@   property C19
 //@   ensures every_conversion_wraps_its_operand: typeof(node) == *dsl.TypeConversionExpression ==> called("python/types.(tailWrapper).Append")
 
+// C08: the generated Python compiles for every accepted model. An enum may be declared without values (the project's
+// own tests do: `X: !enum {base: int8}`); its class then has no member line, and a class body cannot be empty.
+//@ func writeEnum
+//@   property C08
+//@   requires enum != nil
+//@   ensures a_class_body_is_never_empty: old(len(enum.Values)) == 0 && !old(enum.IsFlags) ==> emittedHere("pass\n") == 1
+
 // Output and diagnostics may not depend on the iteration order of a Go map (C12): decided per `range` over a map.
 //@ map-order C12 package
 
